@@ -26,12 +26,14 @@ func (sel *Selection) Find(path string) (*Selection, error) {
 		return nil, err
 	}
 	if qmark := strings.IndexRune(p, '?'); qmark >= 0 {
-		// use URL parser just to decode the query parameters
-		u, err := url.Parse(p)
+		// use URL parser just to decode the query parameters. the path is not a URL: its
+		// first segment may be qualified with a module name (mod:node), which need not be a
+		// legal URL scheme
+		params, err := url.ParseQuery(p[qmark+1:])
 		if err != nil {
-			return nil, err
+			return nil, fmt.Errorf("%w. %s", fc.BadRequestError, err)
 		}
-		if err = BuildConstraints(s, u.Query()); err != nil {
+		if err = BuildConstraints(s, params); err != nil {
 			return nil, err
 		}
 		p = p[:qmark]
